@@ -224,8 +224,18 @@ def analyse_trace(stg, case, tag):
             new_head = branch_edit[0] if branch_edit else (sj["head"] if sj else None)
             new_tree = r.rev(new_head + "^{tree}") if new_head else None
             info = {"new_state": new_state, "ext": ext, "set_head": bool(branch_edit), "new_head": new_head,
-                    "new_tree": new_tree, "ntx": ntx}
+                    "new_tree": new_tree, "ntx": ntx, "ext_early": False}
         pd.remove()
+    if info and info["ext"]:
+        # undo/redo log the external modification before the transaction is set up: seen as
+        # a state ref that has already moved when the process arrives at exec.start
+        with repo.Scratch(tag) as r2:
+            setup_case(r2, stg, setup)
+            pd2 = rigs.PointDir(r2)
+            r2.tick = 2000000000
+            rigs.run_with_point(r2, stg, cmd, pd2, "exec.start:1:kill")
+            info["ext_early"] = observe(r2)["refs"].get("refs/stacks/main") != s0["refs"].get("refs/stacks/main")
+            pd2.remove()
     return {"case": name, "cmd": cmd, "s0": s0, "s1": s1, "log": log, "edits": edits, "exit": p.returncode,
             "stderr": p.stderr, "info": info, "ids": ids}
 
@@ -252,7 +262,7 @@ def plan_fields(tr, w0):
         use_iw = "0"
     return [str(ids.of(info["ext"])) if info["ext"] else "_", "1" if info["set_head"] else "0", use_iw, wt_merge,
             ",".join(updates) or "-", str(ids.of(info["new_state"])), str(ids.of(info["new_head"])),
-            str(old_tree), str(new_tree), "1" if tr["exit"] == 3 else "0"]
+            str(old_tree), str(new_tree), "1" if tr["exit"] == 3 else "0", "1" if info.get("ext_early") else "0"]
 
 
 def abstract_obs(o, ids):
@@ -405,6 +415,7 @@ def _case_worker(args):
                     r2["refs/stacks/main"] = tr["info"]["ext"]
                     rec["ext_only"] = rec["obs"]["refs"] == r2
                 rec["has_ext"] = bool(tr["info"]["ext"])
+                rec["ext_early"] = bool(tr["info"].get("ext_early"))
                 rec["has_wt_merge"] = plan[3] != "_"
                 del rec["obs"]
                 out["records"].append(rec)
